@@ -7,10 +7,12 @@
    is transparent, for any number of terms and records; and the reload keeps the whole TERM
    STRUCTURE (ids, names, flags, parents, children, ancestor caches: C07_reload_keeps_terms).
    and the ANNOTATION SETS of every term (C07_reload_keeps_annotations, for acyclic sources whose
-   sets are the propagation of their records' direct facts).  That the record maps and the
-   information content also come back equal is decided per case by the correspondence run and
-   spec_C07; that part is not yet one theorem. *)
-From HpoV Require Import Gen.Consts Model.Base Model.Group Model.Onto Model.Binary Proofs.GroupP Proofs.BinaryP Proofs.CodecP Proofs.SectionP Proofs.RoundTripP Proofs.ClosureP Proofs.LinkP Proofs.AcyclicP Proofs.AnnotP Proofs.BuilderAnnotP Model.Script.
+   sets are the propagation of their records' direct facts), the information content, the record
+   maps, the version and the default sets: C07_builder_roundtrip_complete states all of it for every
+   ontology a Builder script produces, with no remaining hypothesis but "the format can carry it".
+   Not covered by a theorem: sources loaded from JAX text or produced by sub_ontology (executed). *)
+From Coq Require Import Permutation.
+From HpoV Require Import Gen.Consts Model.Base Model.Group Model.Onto Model.Binary Proofs.GroupP Proofs.BinaryP Proofs.CodecP Proofs.SectionP Proofs.RoundTripP Proofs.ClosureP Proofs.LinkP Proofs.AcyclicP Proofs.AnnotP Proofs.BuilderAnnotP Proofs.ReloadP Proofs.RoundTripAllP Model.Script.
 
 Theorem C07_u32_roundtrip : forall n rest, n < 4294967296 -> u32_at (to_be32 n ++ rest) 0 = Ok n.
 Proof. exact u32_at_to_be32. Qed.
@@ -116,6 +118,28 @@ Theorem C07_builder_ontologies_roundtrip : forall icf icf' s codes o order o'',
   Forall2 (fun t t'' => forall k, t_annots k t'' = t_annots k t) (ar_terms (o_arena o)) (ar_terms (o_arena o'')).
 Proof. exact builder_ontologies_roundtrip. Qed.
 
+(* THE WHOLE PROPERTY FOR EVERY BUILDER-BUILT ONTOLOGY.  Whatever script built o (any calls, any
+   order, failing calls included): if the format can carry o, then for every permutation of the
+   records in the file, a reload with the same information-content function returns
+   (1) every term at the same position with the same id, name (cut at the limit), flags, parents,
+       children and ancestor cache, (2) the same three annotation sets, (3) the same information
+   content, (4) exactly the records written (gene names cut at the limit) in file order and the
+   release version, (5) the same category / modifier sets if the script ended in
+   build_with_defaults (whose result is a fixed point: second theorem) *)
+Theorem C07_builder_roundtrip_complete : forall icf s codes o order o'',
+  run_script icf s = Ok (codes, Ok o) -> file_ok order o -> (forall l, Permutation (order l) l) ->
+  decode icf (encode_with order o) = Ok o'' ->
+  Forall2 term_kept (ar_terms (o_arena o)) (ar_terms (o_arena o'')) /\
+  Forall2 (fun t t'' => forall k, t_annots k t'' = t_annots k t) (ar_terms (o_arena o)) (ar_terms (o_arena o'')) /\
+  Forall2 (fun t t'' => t_ic t'' = t_ic t) (ar_terms (o_arena o)) (ar_terms (o_arena o'')) /\
+  (forall k, o_records k o'' = map (raw_record k) (order (o_records k o))) /\ o_version o'' = o_version o /\
+  (b_build_with_defaults o = Ok o -> o_cat o'' = o_cat o /\ o_mod o'' = o_mod o).
+Proof. exact builder_roundtrip_complete. Qed.
+
+Theorem C07_builder_defaults_fixed : forall icf s codes o, run_script icf s = Ok (codes, Ok o) ->
+  (let '(_, _, _, _, kindb) := s in kindb =? 0) = false -> b_build_with_defaults o = Ok o.
+Proof. exact builder_defaults_fixed. Qed.
+
 Print Assumptions C07_u32_roundtrip.
 Print Assumptions C07_name_cut_bounds.
 Print Assumptions C07_name_cut_identity.
@@ -134,3 +158,5 @@ Print Assumptions C07_reload_keeps_terms.
 Print Assumptions C07_builder_ontologies_are_sources.
 Print Assumptions C07_reload_keeps_annotations.
 Print Assumptions C07_builder_ontologies_roundtrip.
+Print Assumptions C07_builder_roundtrip_complete.
+Print Assumptions C07_builder_defaults_fixed.
